@@ -2,6 +2,10 @@
    Property theorems only; each is closed by an exact reference to a lemma of
    Strat/StratifyProofs.v or Strat/DepGraphProofs.v.
 
+   The chain: depgraph_edges_exact ties the graph g the model builds to the rule set
+   (arcs = mentions, negative wins, heads = vertices); the remaining theorems are about
+   any graph g.
+
    Vocabulary: a graph g has labelled arcs (u, v, b): "a rule with head u mentions v",
    b = true when the mention is negated or feeds an aggregation (do-transform);
    nodes g = all rule heads and all arc end points; path g u v = v is reachable
@@ -104,6 +108,47 @@ Theorem prefix_graph_drops_temporal : forall P,
 Proof. exact prefix_ignores_temporal_proof. Qed.
 Print Assumptions prefix_graph_drops_temporal.
 
+(* ------------------------------------------------- the graph is the rule set's *)
+(* What one body premise of a rule r says about dependencies (DepGraphProofs.mention,
+   spelled out): a positive mention of q - plain Atom, TemporalLiteral{Atom} or
+   TemporalAtom alike - counts unless q is a built-in or an EDB predicate, and is
+   negative exactly when r carries a do-transform; a negated mention - NegAtom or
+   TemporalLiteral{NegAtom} alike - counts unless q is an EDB predicate (the Go code
+   has no built-in test on that path) and is negative; anything else says nothing. *)
+Theorem mention_cases : forall (P : program) (r : rule) (q : pred),
+  mention P r (PAtom q) =
+    (if memb q (builtins P) || memb q (edb P) then None
+     else Some (q, match xform r with TDo => true | _ => false end)) /\
+  mention P r (PTempLit false q) = mention P r (PAtom q) /\
+  mention P r (PTempAtom q) = mention P r (PAtom q) /\
+  mention P r (PNeg q) = (if memb q (edb P) then None else Some (q, true)) /\
+  mention P r (PTempLit true q) = mention P r (PNeg q) /\
+  mention P r POther = None.
+Proof. intros P r q. repeat split; reflexivity. Qed.
+Print Assumptions mention_cases.
+
+(* The dependency graph makeDepGraph builds (after fix F4) from ANY rule set:
+   - its vertices are exactly the rule heads, each once;
+   - it has a negative arc h -> q exactly when SOME rule with head h has a body premise
+     whose mention of q is negative (negated, or inside a do-transform rule);
+   - it has a positive arc h -> q exactly when some rule with head h has a positive
+     mention of q and NO rule with head h has a negative one ("negative wins",
+     whatever the order of rules and premises);
+   - hence an arc h -> q exists iff some rule with head h mentions q (not skipped),
+     and no pair carries both labels. *)
+Theorem depgraph_edges_exact : forall (P : program),
+  let g := graph_of (make_dep_graph P) in
+  (forall h, In h (verts g) <-> exists r, In r (rules P) /\ head r = h) /\
+  NoDup (verts g) /\
+  (forall h q, In (h, q, true) (arcs g) <->
+     exists r pm, In r (rules P) /\ head r = h /\ In pm (body r) /\ mention P r pm = Some (q, true)) /\
+  (forall h q, In (h, q, false) (arcs g) <->
+     (exists r pm, In r (rules P) /\ head r = h /\ In pm (body r) /\ mention P r pm = Some (q, false)) /\
+     ~ (exists r pm, In r (rules P) /\ head r = h /\ In pm (body r) /\ mention P r pm = Some (q, true))) /\
+  (forall h q b b', In (h, q, b) (arcs g) -> In (h, q, b') (arcs g) -> b = b').
+Proof. exact depgraph_edges_exact_proof. Qed.
+Print Assumptions depgraph_edges_exact.
+
 (* ------------------------------------------------------------- non-vacuity *)
 Open Scope Z_scope.
 
@@ -123,6 +168,29 @@ Example ex_neg_cycle : neg_cycle (mkGraph [2; 3] [(2, 3, false); (3, 2, true)]) 
 Proof. vm_compute. reflexivity. Qed.
 Example ex_ref : stratify_ref ex_graph = Some ([[5]; [3; 2]; [4]], [(5, 0%nat); (4, 2%nat); (3, 1%nat); (2, 1%nat)]).
 Proof. vm_compute. reflexivity. Qed.
+
+(* depgraph_edges_exact is not vacuous: built-in 9, EDB 0; head 2 mentions 3 positively in
+   one rule and negatively in another (negative wins), 4 through a negated temporal
+   literal; head 4 (do-transform rule) mentions 2 through a temporal atom (negative) and
+   the built-in 9 negated (kept, as in Go); head 5 reads only the EDB *)
+Definition ex_prog : program :=
+  mkProgram [9] [0]
+    [mkRule 2 [PAtom 0; PAtom 9; PAtom 3; PTempLit true 4; POther] TNone;
+     mkRule 2 [PNeg 3] TLet;
+     mkRule 4 [PTempAtom 2; PNeg 9] TDo;
+     mkRule 5 [PAtom 0] TNone].
+
+Example depgraph_edges_example :
+  graph_of (make_dep_graph ex_prog) =
+    mkGraph [2; 4; 5] [(2, 3, true); (2, 4, true); (4, 2, true); (4, 9, true)] /\
+  (exists r pm, In r (rules ex_prog) /\ head r = 2 /\ In pm (body r) /\ mention ex_prog r pm = Some (3, false)) /\
+  (exists r pm, In r (rules ex_prog) /\ head r = 2 /\ In pm (body r) /\ mention ex_prog r pm = Some (3, true)).
+Proof.
+  split; [vm_compute; reflexivity|]. split.
+  - exists (mkRule 2 [PAtom 0; PAtom 9; PAtom 3; PTempLit true 4; POther] TNone), (PAtom 3).
+    simpl. repeat split; auto.
+  - exists (mkRule 2 [PNeg 3] TLet), (PNeg 3). simpl. repeat split; auto.
+Qed.
 
 (* --------------------------------------------------------- finding F4 (fixed) *)
 (* b@ :- a@.  c@ :- b@.  d@ :- c@.   a = 0 (EDB), b = 2, c = 4, d = 6 *)
